@@ -67,15 +67,21 @@ class PcapNg:
     def custom(self):
         return self.block(CUSTOM, struct.pack(self.e + "I", 32473) + b"unrelated custom data!!!")
 
-    def build(self, blocks, pre_idb=()):
+    def build(self, blocks, pre_idb=(), second_if=None):
         out = [self.shb()]
         for b in pre_idb:  # blocks between SHB and IDB: unrelated ones by name, or ('dsb', text)
             out.append(self.dsb(b[1]) if isinstance(b, tuple) else getattr(self, b)())
         out.append(self.idb())
+        if second_if is not None:
+            w2 = PcapNg(le=(self.e == "<"), tsresol=second_if[0], tsoffset=second_if[1])
+            out.append(w2.idb())
         for b in blocks:
             k = b[0]
             if k == "pkt":
                 out.append(self.epb(b[1], b[2]))
+            elif k == "pkt2":
+                fr = b[2]
+                out.append(self.block(EPB, struct.pack(self.e + "IIIII", 1, b[1] >> 32, b[1] & 0xFFFFFFFF, len(fr), len(fr)) + _pad(fr)))
             elif k == "dsb":
                 out.append(self.dsb(b[1]))
             else:
@@ -89,7 +95,7 @@ def units_per_second(tsresol):
     return 2 ** (tsresol & 0x7F) if tsresol & 0x80 else 10 ** tsresol
 
 
-def pcapng_bytes(pkts, le=True, tsresol=None, tsoffset=None, dsbs=(), extra=(), pre_idb=(), shb_opts=False):
+def pcapng_bytes(pkts, le=True, tsresol=None, tsoffset=None, dsbs=(), extra=(), pre_idb=(), shb_opts=False, second_if=None):
     """pkts: list of (ts_us:int, frame) -- or (ts_num, ts_den_per_s ...) handled by caller.
     dsbs: list of (position, text) -- position = index in pkts before which the DSB is written (len(pkts) = end)
     extra: list of (position, kind)"""
@@ -110,6 +116,15 @@ def pcapng_bytes(pkts, le=True, tsresol=None, tsoffset=None, dsbs=(), extra=(), 
             units = (num - off * den) * ups // den
         else:
             units = (ts_us - off * 10 ** 6) * ups // 10 ** 6
+        if second_if is not None and i % 2 == 1:      # every second packet was captured on a second interface with its own resolution / offset
+            r2, o2 = second_if
+            ups2, off2 = units_per_second(r2), (o2 or 0)
+            if isinstance(ts_us, tuple):
+                units2 = (ts_us[0] - off2 * ts_us[1]) * ups2 // ts_us[1]
+            else:
+                units2 = (ts_us - off2 * 10 ** 6) * ups2 // 10 ** 6
+            blocks.append(("pkt2", units2, frame))
+            continue
         blocks.append(("pkt", units, frame))
     for p, text in dsbs:
         if p >= len(pkts):
@@ -117,7 +132,7 @@ def pcapng_bytes(pkts, le=True, tsresol=None, tsoffset=None, dsbs=(), extra=(), 
     for p, kind in extra:
         if p >= len(pkts):
             blocks.append((kind,))
-    return w.build(blocks, pre_idb=pre_idb)
+    return w.build(blocks, pre_idb=pre_idb, second_if=second_if)
 
 
 def pcap_bytes(pkts, le=True, nano=False):
